@@ -17,7 +17,7 @@ EXPLANATION = (
     'effect channel exactly once — at the call for a notification, at the first poll (typestate ReadyToSend -> Sent) for the others — and the '
     'future keeps the receiver it was created with; R01.g every future crux provides keeps the current poll\'s waker when it stays Pending '
     '(a task that loses it is evicted and what it would still have requested is lost); R01.h a command reports done / ends its stream only when '
-    'its effect and event queues are empty. Does not decide that the fixpoint is reached for every program. R01.i every task that leaves a command publishes `finished` and wakes its join handles (shared with C07).')
+    'its effect and event queues are empty. Does not decide that the fixpoint is reached for every program. R01.i every task that leaves a command publishes `finished` and wakes its join handles (shared with C07). R01.k a combinator returns a fresh command, never an operand (shared with C06 R06.g; the deliberate left-operand hosting of `and`, finding C06-F2, is not repeated here).')
 
 
 # ---------------------------------------------------------------------------------------------------
